@@ -133,4 +133,17 @@ def firedOnly {ι : Type} (plans : List (ι × ShotPlan × Fate)) : List (ι × 
 def countFate {ι : Type} (f : Fate) (plans : List (ι × ShotPlan × Fate)) : Nat :=
   (plans.filter fun x => x.2.2 == f).length
 
+/-! ## option defaults: the `auto-tag` section of a gun's config
+
+Every registered http-family gun decodes its config OVER the value its defaults function returns (`register.Gun(name,
+constructor, defaults)`): a key the user does not write keeps the default. -/
+
+/-- `Default{HTTP,HTTP2,Connect}GunConfig().AutoTag` (regenerated: `Gen.GrpcStatus.autoTagDefaults`, `gunDefaultConfig`) -/
+def defaultAutoTag : AutoTagCfg := { enabled := false, uriElements := 2, noTagOnly := true }
+
+/-- the section as written (`none`: key absent), decoded over the defaults -/
+def decodeAutoTag (enabled : Option Bool) (el : Option Nat) (nto : Option Bool) : AutoTagCfg :=
+  { enabled := enabled.getD defaultAutoTag.enabled, uriElements := el.getD defaultAutoTag.uriElements,
+    noTagOnly := nto.getD defaultAutoTag.noTagOnly }
+
 end Pandora.Model.C10
